@@ -215,6 +215,53 @@ pub(crate) mod vk {
         }
     }
 
+    /// `io_any` for sinks: may accept only a prefix of each write (short write), report Interrupted, or fail at a call.
+    pub(crate) struct SinkAny<const N: usize> {
+        pub(crate) buf: [u8; N],
+        pub(crate) len: usize,
+        pub(crate) calls: usize,
+        pub(crate) fail_at: usize,
+        pub(crate) interrupts_left: u8,
+        pub(crate) short: bool,
+    }
+    impl<const N: usize> SinkAny<N> {
+        pub(crate) fn new() -> Self {
+            Self { buf: [0u8; N], len: 0, calls: 0, fail_at: usize::MAX, interrupts_left: 0, short: false }
+        }
+    }
+    impl<const N: usize> Write for SinkAny<N> {
+        fn write(&mut self, b: &[u8]) -> Result<usize> {
+            let call = self.calls;
+            self.calls += 1;
+            if call == self.fail_at {
+                return Err(mk_err(Kind::Unknown));
+            }
+            if self.interrupts_left > 0 && any::<bool>() {
+                self.interrupts_left -= 1;
+                return Err(mk_err(Kind::Interrupted));
+            }
+            let n = if self.short && b.len() > 1 {
+                let k: usize = any();
+                assume(k >= 1 && k <= b.len());
+                k
+            } else {
+                b.len()
+            };
+            assert!(self.len + n <= N, "verif sink capacity exceeded");
+            // byte loop, not memcpy: n is symbolic here and N is tiny (a symbolic-size memcpy exhausts CBMC's memory)
+            let mut i = 0;
+            while i < n {
+                self.buf[self.len + i] = b[i];
+                i += 1;
+            }
+            self.len += n;
+            Ok(n)
+        }
+        fn flush(&mut self) -> Result<()> {
+            Ok(())
+        }
+    }
+
     /// Source over a fixed array with a read cursor; counts bytes delivered.
     pub(crate) struct Src<const N: usize> {
         pub(crate) buf: [u8; N],
